@@ -495,6 +495,31 @@ theorem C18_model_meets_spec :
         rw [h3] at hnr
         simp only [specDecodeOK, h1, hrt, hnr, hloc, h3, Bool.and_true, beq_self_eq_true]
 
+/-! ## Read-back of the stored schedule (the `C18.sget` observation) -/
+
+/-- `GET /control/blocked_services/get` after an update reads back exactly the
+configuration the update carried — whatever its list of IDs, the empty list
+included. -/
+theorem C18_update_read_back (s : ReqState) (g : SvcConf) : (s.step (.update g)).global = g := rfl
+
+/-- The stored pause schedule survives every history of ID-list changes (also
+to and from the empty list) and client edits: only an update replaces it. -/
+theorem C18_schedule_kept_until_update (s : ReqState) (ops : List ReqOp)
+    (h : ∀ op ∈ ops, ∀ g, op ≠ .update g) :
+    (ops.foldl ReqState.step s).global.sched = s.global.sched := by
+  induction ops generalizing s with
+  | nil => rfl
+  | cons op ops ih =>
+    simp only [List.foldl_cons]
+    rw [ih (s.step op) (fun o ho => h o (List.mem_cons_of_mem _ ho))]
+    cases op with
+    | update g => exact absurd rfl (h (.update g) (List.mem_cons_self ..) g)
+    | setIDs n => rfl
+    | client c => rfl
+
+/-- non-vacuity: a schedule set while no service is blocked is still there after services are added -/
+example : ((ReqState.init.step (.update ⟨fullWeekly, 0⟩)).step (.setIDs 2)).global = ⟨fullWeekly, 2⟩ := rfl
+
 /-! ## Translator tie: the decision core as the source states it (regenerated per run)
 
 `extract/cmd/c18` rewrites `Gen/C18Schedule.lean` from the typed syntax of
